@@ -160,6 +160,14 @@ def gen(t, tier):
           'two_sources': backend != 'file-link' and bool(t.chance(0.3))}
     # a second on_error mapping with the same colour whose fill image is to be cached (404), next to the uncached 500
     sc['err404'] = not sc['two_sources'] and backend != 'file-link' and bool(t.chance(0.3))
+    # a cache on top of another cache with a different tile size (same SRS and resolutions): the outer cache cuts its (meta)
+    # tiles out of the merged tiles of the inner one; tiles are only ever created, never rewritten, in these cases
+    sc['cascade'] = backend == 'file' and not sc['two_sources'] and not sc['err404'] and bool(t.chance(0.15))
+    if sc['cascade']:
+        sc['refresh'] = None
+        sc['ocean'] = False
+        sc['meta_size'] = t.pick([[1, 1], [2, 2]])
+        sc['meta_buffer'] = t.pick([0, 2, 3])
     if backend == 'file-link':
         # make sure at least two requested tiles are constant-colour ones (they share the single-colour files)
         for x in range(n):
@@ -195,7 +203,8 @@ def gen(t, tier):
         linked = backend == 'file-link'
         k = t.weighted([('get', 5), ('cond', 8), ('adv', 3), ('rewrite', (6 if linked else 2) if sc['refresh'] else 0),
                         ('up500', 1 if linked else 2), ('up404', 2 if sc.get('err404') else 0), ('cond_refresh', 2 if sc['refresh'] else 0),
-                        ('ocean', 5 if linked else (2 if sc['ocean'] else 0)), ('purge', 4 if linked else 1)])
+                        ('ocean', 5 if linked else (2 if sc['ocean'] else 0)),
+                        ('purge', 0 if sc.get('cascade') else (4 if linked else 1))])
         u = t.choice(len(coords))
         if k == 'get':
             sc['ops'].append(['get', u])
@@ -320,6 +329,17 @@ def _run(sc, tape):
                                    'on_error': {500: {'response': sc['fill'], 'cache': False}}}
         conf['caches']['c1']['sources'] = ['src', 'src2']
         http.fail_layers = set(['b'])
+    if sc.get('cascade'):
+        inner = copy.deepcopy(conf['caches']['c1'])
+        inner['grids'] = ['g0']
+        inner['meta_size'] = [1, 1]
+        inner['meta_buffer'] = 0
+        conf['caches']['c0'] = inner
+        # same resolutions as grid g, tiles twice as large: not the tile-by-tile link the loader sets up for equal grids
+        conf['grids']['g0'] = {'srs': 'EPSG:3857', 'tile_size': [2 * U.TS, 2 * U.TS], 'origin': 'll',
+                               'res': [U.level_res(z_) for z_ in range(conf['grids']['g']['num_levels'])]}
+        conf['caches']['c1']['sources'] = ['c0']
+        conf['caches']['c1']['meta_buffer'] = sc.get('meta_buffer', 0)
     if sc.get('err404'):
         # a second error mapping with the same fill colour that IS to be cached (a 404 of the upstream = "no data here")
         conf['sources']['src']['on_error'] = {404: {'response': sc['fill'], 'cache': True},
@@ -340,6 +360,8 @@ def _run(sc, tape):
         return sum(1 for e in http.log if e['ok'] and e.get('bbox') and U.covers(e['bbox'], coords[u]))
 
     purges = []          # (length of the upstream log at that moment, url index)
+    outer_seen = set()   # cascade: addresses whose first tile response has been seen
+    created_now = [False]
 
     def stored_kind(u):
         """what the history so far has put into the cache for this tile: every upstream answer covering it (alone or as part
@@ -408,6 +430,14 @@ def _run(sc, tape):
             raise Bad('undecodable-body', '%s: constant-colour body for a tile that is not an ocean tile' % what)
         ep = epoch(u)
         creating = any(e['ok'] for e in calls)
+        if sc.get('cascade') and u not in outer_seen:
+            # cache on cache: the outer tile may be created from tiles the inner cache already holds, without any upstream
+            # call - the first tile response for an address counts as the creating one
+            creating = True
+            outer_seen.add(u)
+            created_now[0] = True
+        else:
+            created_now[0] = False
         if not creating:
             l = last.get(u)
             if l is not None and l['epoch'] == ep:
@@ -434,7 +464,7 @@ def _run(sc, tape):
             kind, val = observe(u, st, hd, body, calls, what + ' (probe)')
             if kind == 'fill':
                 return None
-            if not any(e['ok'] for e in calls):
+            if not any(e['ok'] for e in calls) and not created_now[0]:
                 if hd.get('etag') is None and hd.get('last-modified') is None:
                     # no validators offered at all (e.g. a WMS-C image that had to be re-merged): nothing to revalidate
                     probes['responses_without_validators'] = probes.get('responses_without_validators', 0) + 1
